@@ -6,6 +6,7 @@
   the guards in the code make each of them unreachable — for every schema and every byte string.
 -/
 import ZvtVerif.Proofs.NoPanic
+import ZvtVerif.Proofs.SizeBound
 import ZvtVerif.Generated
 import ZvtVerif.Transport
 import ZvtVerif.Properties.C17
@@ -34,6 +35,36 @@ theorem decode_total (s : StructDef) (h : structTyped s = true) (b : Bytes) : NP
     exact deserTagged_np' tagDecBE (fun x => intDecode_np true 2 x) .adpu (by intro s h; cases h) _
       (fun x => decStructWith_np _ _ (fun y => decPos_np s.fields y h) (fun t y idx r ha => armFind_np s.fields t 0 y idx r h ha) s.fields x)
       (some (ctrlTag c)) b
+
+/-- the schema constant of a packet type (depends on the type only, not on the input). -/
+def structWeight (s : StructDef) : Nat := 1 + 3 * fieldsWeight s.fields
+
+/-- **Decoding never builds more than a constant multiple of the input** — for every struct definition as
+above and EVERY byte string: if a value comes back, its size (nodes + characters + payload bytes, `Val.size`)
+is at most `structWeight s × (1 + bytes consumed)`. In particular a `Vec` field cannot grow without
+consuming input (the progress guard of defect D8), nested containers cannot multiply their content, and
+text decoders produce at most two characters per byte. -/
+theorem decode_size_bounded (s : StructDef) (h : structTyped s = true) (b : Bytes) (v : Val) (r : Bytes)
+    (hd : decodeCmd s b = .ok (v, r)) : r.length ≤ b.length ∧ v.size ≤ structWeight s * (1 + (b.length - r.length)) := by
+  have hstruct : ∀ x, SB (1 + 3 * fieldsWeight s.fields) (decStructWith (fun y => decPos s.fields y) (fun t y => armFind s.fields t 0 y) s.fields x) x :=
+    fun x => decStructWith_sb (fieldsWeight s.fields) _ _ (fun y vs r hd => decPos_sb s.fields y vs r h hd)
+      (fun t y idx r ha => armFind_np s.fields t 0 y idx r h ha) (fun t y idx r ha => armFind_sb s.fields t 0 y idx r h ha)
+      s.fields (length_le_weight s.fields) x
+  have hnp : ∀ x, NP (decStructWith (fun y => decPos s.fields y) (fun t y => armFind s.fields t 0 y) s.fields x) x :=
+    fun x => decStructWith_np _ _ (fun y => decPos_np s.fields y h) (fun t y idx r ha => armFind_np s.fields t 0 y idx r h ha) s.fields x
+  unfold decodeCmd at hd
+  cases hc : s.ctrl with
+  | none =>
+    simp only [hc, decodePlain] at hd
+    have := Ty.de_sb (.struct s.fields) .empty .dflt none b (by simp [Ty.typed, LenKind.known]; exact h) v r hd
+    simpa [Ty.weight, structWeight] using this
+  | some c =>
+    simp only [hc] at hd
+    exact deserTagged_sb' _ tagDecBE (fun x => intDecode_np true 2 x) .adpu (by intro s h; cases h) _ hnp hstruct (some (ctrlTag c)) b v r hd
+
+/-- any field decoder, at any nesting depth. -/
+theorem field_size_bounded (t : Ty) (L : LenKind) (E : Enc) (tag : Option Nat) (b : Bytes) (h : Ty.typed t L E = true) :
+    SB (Ty.weight t) (Ty.de t L E tag b) b := Ty.de_sb t L E tag b h
 
 /-- every field decoder, at any nesting depth. -/
 theorem field_decode_total (t : Ty) (L : LenKind) (E : Enc) (tag : Option Nat) (b : Bytes) (h : Ty.typed t L E = true) :
@@ -78,6 +109,17 @@ the kernel against the table translated from the source on this run). -/
 theorem shipped_typed : Generated.shipped.all structTyped = true := by decide +kernel
 
 theorem shipped_enums_typed : Generated.enums.all (fun e => e.variants.all (fun v => structTyped v.2)) = true := by decide +kernel
+
+/-- the schema constants of the shipped types (largest: `StatusInformation` with its nested containers; the
+bound is deliberately generous — a factor 3 per nesting level — the measured allocation stays below 64 × input). -/
+theorem shipped_weight_le : Generated.shipped.all (fun s => decide (structWeight s ≤ 2677)) = true := by decide +kernel
+
+/-- Corollary for the code as shipped: every decoded value is at most `2677 × (1 + bytes consumed)` large. -/
+theorem shipped_decode_size (s : StructDef) (hs : s ∈ Generated.shipped) (b : Bytes) (v : Val) (r : Bytes)
+    (hd : decodeCmd s b = .ok (v, r)) : v.size ≤ 2677 * (1 + (b.length - r.length)) := by
+  have h1 := decode_size_bounded s (List.all_eq_true.mp shipped_typed s hs) b v r hd
+  have h2 : structWeight s ≤ 2677 := by simpa using List.all_eq_true.mp shipped_weight_le s hs
+  exact Nat.le_trans h1.2 (Nat.mul_le_mul_right _ h2)
 
 /-- Corollary for the code as shipped: no decoder, no reply parser can panic or loop on any input. -/
 theorem shipped_decode_total (s : StructDef) (hs : s ∈ Generated.shipped) (b : Bytes) : NP (decodeCmd s b) b :=
